@@ -56,6 +56,20 @@ def _iterate(v, env):
         return r_ if isinstance(r_, types.GeneratorType) else list(r_)
     if isinstance(v, types.GeneratorType): return v
     return list(v)
+def _native(f, args):
+    """a builtin applied to values of the evaluated program: its TypeError / ValueError is the program's"""
+    try: return f(*args)
+    except (TypeError, ValueError) as x_: raise Raised(type(x_).__name__, str(x_))
+def _kwargs(keywords, env):
+    """keyword arguments of a call, `**mapping` expanded"""
+    out_ = {}
+    for k in keywords:
+        if k.arg is None:
+            m_ = evaluate(k.value, env)
+            if not isinstance(m_, dict): raise Unsupported("** of a non-dict")
+            out_.update(m_)
+        else: out_[k.arg] = evaluate(k.value, env)
+    return out_
 def _args(args, env):
     out_ = []
     for a in args:
@@ -153,6 +167,7 @@ def evaluate(e, env):
         if e.id in TRUSTED: return TRUSTED[e.id]            # a whitelisted standard-library module the analysed file imports under its own name
         if e.id in ("list", "dict", "set", "tuple", "str", "int", "float", "bool", "frozenset"): return PyFn({"list": list, "dict": dict, "set": set, "tuple": tuple, "str": str, "int": int, "float": float, "bool": bool, "frozenset": frozenset}[e.id])    # a builtin type used as a value (e.g. defaultdict(list))
         if e.id == "object": return ClassRef("object")
+        if e.id in ("id", "len", "str", "repr", "callable"): return PyFn({"id": id, "len": len, "str": str, "repr": repr, "callable": callable}[e.id])      # a builtin used as a value (map(id, ...))
         if e.id in ("staticmethod", "classmethod"): return PyFn(lambda f: f)        # as a call in a class body: the wrapped callable itself
         if e.id in ("defaultdict", "OrderedDict"): return PyFn(lambda *a, _n=e.id, **k: getattr(__import__("collections"), _n)(*[(x.fn if isinstance(x, PyFn) else x) for x in a], **k))
         # a module-level constant of the analysed file (env["__module__"]: its ast.Module): literal tables and strings
@@ -255,7 +270,7 @@ def evaluate(e, env):
             try: recv_ = evaluate(e.func.value, env)
             except Unsupported: recv_ = None
             if (isinstance(recv_, _re.Pattern) and e.func.attr in _PATTERN_METHODS) or (isinstance(recv_, _re.Match) and e.func.attr in _MATCH_METHODS):
-                r_ = _trusted_call(getattr(recv_, e.func.attr), _args(e.args, env), {k.arg: evaluate(k.value, env) for k in e.keywords if k.arg})
+                r_ = _trusted_call(getattr(recv_, e.func.attr), _args(e.args, env), _kwargs(e.keywords, env))
                 return list(r_) if e.func.attr == "finditer" else r_
         if isinstance(e.func, ast.Name) and e.func.id in ("list", "tuple", "set", "sorted") and len(e.args) == 1 and not e.keywords and env.get("__classdefs__") and e.func.id not in env:
             v_ = evaluate(e.args[0], env)
@@ -266,7 +281,7 @@ def evaluate(e, env):
                 c_, f_ = find_method(env["__classdefs__"], v_[".__cls__"], "__len__")
                 if f_ is None: raise Raised("TypeError")
                 return call_method_of(v_, c_, f_, [], {}, env)
-            return len(v_)
+            return _native(len, [v_])
         if isinstance(e.func, ast.Name) and e.func.id == "iter" and len(e.args) == 1 and "iter" not in env: return list(evaluate(e.args[0], env))
         if isinstance(e.func, ast.Name) and e.func.id == "dict" and "dict" not in env and e.keywords:
             d_ = dict(*_args(e.args, env))
@@ -277,7 +292,7 @@ def evaluate(e, env):
         if isinstance(e.func, ast.Name) and e.func.id in ("str", "repr") and len(e.args) == 1 and not e.keywords and e.func.id not in env and env.get("__classdefs__"):
             v_ = evaluate(e.args[0], env)
             return text_of(v_, env) if isinstance(v_, (Inst, list)) else (str(v_) if e.func.id == "str" else repr(v_))
-        if isinstance(e.func, ast.Name) and e.func.id in ("len", "str", "bool", "list", "tuple", "sorted", "set", "dict", "id", "type", "any", "all", "sum", "min", "max") and not e.keywords: return {"any": any, "all": all, "sum": sum, "min": min, "max": max, "len": len, "str": str, "bool": bool, "list": list, "tuple": tuple, "sorted": sorted, "set": set, "dict": dict, "id": id, "type": lambda o: o.cls if isinstance(o, InstObj) else (o.get(".__class__") if isinstance(o, dict) and ".__class__" in o else type(o))}[e.func.id](*_args(e.args, env))
+        if isinstance(e.func, ast.Name) and e.func.id in ("len", "str", "bool", "list", "tuple", "sorted", "set", "dict", "id", "type", "any", "all", "sum", "min", "max") and not e.keywords: return _native({"any": any, "all": all, "sum": sum, "min": min, "max": max, "len": len, "str": str, "bool": bool, "list": list, "tuple": tuple, "sorted": sorted, "set": set, "dict": dict, "id": id, "type": lambda o: o.cls if isinstance(o, InstObj) else (o.get(".__class__") if isinstance(o, dict) and ".__class__" in o else type(o))}[e.func.id], _args(e.args, env))
         if isinstance(e.func, ast.Attribute) and e.func.attr == "__new__" and e.args:
             c_ = evaluate(e.func.value, env)
             if isinstance(c_, ClassObj): return InstObj(c_)
@@ -346,10 +361,11 @@ def evaluate(e, env):
             if len(e.args) == 3: return evaluate(e.args[2], env)
             raise Raised("AttributeError")
         if isinstance(e.func, ast.Name) and e.func.id in ("map", "filter") and len(e.args) == 2 and e.func.id not in env:
-            f_ = evaluate(e.args[0], env); it_ = list(evaluate(e.args[1], env))
+            f_ = evaluate(e.args[0], env); it_ = list(_iterate(evaluate(e.args[1], env), env))
             if f_ is None and e.func.id == "filter": return [x_ for x_ in it_ if x_]
             if not callable(f_): raise Unsupported("%s with a non-callable" % e.func.id)
             return [f_(x_) for x_ in it_] if e.func.id == "map" else [x_ for x_ in it_ if f_(x_)]
+        if isinstance(e.func, ast.Name) and e.func.id == "object" and not e.args and not e.keywords and "object" not in env: return _Sentinel()      # a private sentinel
         if isinstance(e.func, ast.Name) and e.func.id == "next" and 1 <= len(e.args) <= 2 and not e.keywords:
             it_ = evaluate(e.args[0], env)
             if isinstance(it_, types.GeneratorType):
@@ -390,7 +406,7 @@ def evaluate(e, env):
         cds = env.get("__classdefs__") or {}
         if cds:
             if isinstance(e.func, ast.Name) and e.func.id in cds and e.func.id not in env:
-                return instantiate(e.func.id, _args(e.args, env), {k.arg: evaluate(k.value, env) for k in e.keywords if k.arg}, env)
+                return instantiate(e.func.id, _args(e.args, env), _kwargs(e.keywords, env), env)
             if isinstance(e.func, ast.Name) and e.func.id in ("str", "repr") and len(e.args) == 1 and not e.keywords:
                 v_ = evaluate(e.args[0], env)
                 if isinstance(v_, (Inst, list)): return text_of(v_, env)
@@ -399,21 +415,21 @@ def evaluate(e, env):
                 cn_ = e.func.value.id if e.func.value.id in cds and e.func.value.id not in env else env[e.func.value.id].name
                 c_, f_ = find_method(cds, cn_, e.func.attr)
                 if f_ is not None and any(isinstance(d_, ast.Name) and d_.id in ("classmethod", "staticmethod") for d_ in f_.decorator_list):
-                    return call_method_of(None, cn_, f_, _args(e.args, env), {k.arg: evaluate(k.value, env) for k in e.keywords if k.arg}, env)
+                    return call_method_of(None, cn_, f_, _args(e.args, env), _kwargs(e.keywords, env), env)
             if isinstance(e.func, ast.Attribute):
                 # super().method(...)
                 if isinstance(e.func.value, ast.Call) and isinstance(e.func.value.func, ast.Name) and e.func.value.func.id == "super" and env.get("__class__") in cds:
                     self_name = next((k_ for k_, v_ in env.items() if isinstance(v_, Inst) and k_ in ("self",)), None)
                     inst_ = env.get("self")
                     c_, f_ = find_method(cds, inst_[".__cls__"], e.func.attr, after=env["__class__"]) if isinstance(inst_, Inst) else (None, None)
-                    if f_ is not None: return call_method_of(inst_, c_, f_, _args(e.args, env), {k.arg: evaluate(k.value, env) for k in e.keywords if k.arg}, env)
+                    if f_ is not None: return call_method_of(inst_, c_, f_, _args(e.args, env), _kwargs(e.keywords, env), env)
                     if e.func.attr == "__init__": return None                     # object.__init__ / a base class outside the module
                     raise Unsupported("super().%s outside the interpreted classes" % e.func.attr)
                 try: recv_ = evaluate(e.func.value, env)
                 except Unsupported: recv_ = None
                 if isinstance(recv_, Inst) and ("." + e.func.attr) not in recv_:
                     c_, f_ = find_method(cds, recv_[".__cls__"], e.func.attr)
-                    if f_ is not None: return call_method_of(recv_, c_, f_, _args(e.args, env), {k.arg: evaluate(k.value, env) for k in e.keywords if k.arg}, env)
+                    if f_ is not None: return call_method_of(recv_, c_, f_, _args(e.args, env), _kwargs(e.keywords, env), env)
         # a helper of the analysed module (env["__functions__"]: name -> FunctionDef): interpreted with its parameters bound
         fns = env.get("__functions__") or {}
         hn = e.func.id if isinstance(e.func, ast.Name) else (e.func.attr if isinstance(e.func, ast.Attribute) and isinstance(e.func.value, ast.Name) and (e.func.value.id in ("self", "cls") or (e.func.value.id[:1].isupper() and e.func.value.id not in env)) else None)
@@ -466,9 +482,9 @@ def evaluate(e, env):
                 else: args_.append(evaluate(a, env))
             return fv.fn(*args_, **kw_)
         if isinstance(fv, ClassRef) and fv.name in (env.get("__classdefs__") or {}):
-            return instantiate(fv.name, _args(e.args, env), {k.arg: evaluate(k.value, env) for k in e.keywords if k.arg}, env)
+            return instantiate(fv.name, _args(e.args, env), _kwargs(e.keywords, env), env)
         if isinstance(fv, Closure) and not e.keywords: return fv(*_args(e.args, env))
-        if isinstance(fv, DefClosure): return fv(*_args(e.args, env), **{k.arg: evaluate(k.value, env) for k in e.keywords if k.arg})
+        if isinstance(fv, DefClosure): return fv(*_args(e.args, env), **_kwargs(e.keywords, env))
     if isinstance(e, ast.Call) and isinstance(e.func, ast.Attribute):
         try: recv_ = evaluate(e.func.value, env)
         except Unsupported: recv_ = e
@@ -482,6 +498,9 @@ class Trusted:
     names of its base classes, so that handlers of the evaluated code catch it as they would at run time."""
     def __init__(s, obj, names): s.obj, s.names = obj, set(names)
 import itertools as _it
+class _Sentinel:
+    """the value of object(): equal to nothing but itself"""
+    __slots__ = ()
 class _BoundedItertools:
     """itertools with the infinite generators cut at 1000 items (generators are evaluated eagerly)"""
     __name__ = "itertools"
@@ -690,7 +709,16 @@ def _exec(stmts, env, max_steps=2000):
                         if tg.id not in d_.get("__nonlocal_names__", ()): break
                         d_ = d_.get("__defenv__")
         elif isinstance(tg, (ast.Tuple, ast.List)):
-            v = list(v)
+            v = list(_iterate(v, env)) if isinstance(v, Inst) else list(v)
+            st_ = [i_ for i_, t_ in enumerate(tg.elts) if isinstance(t_, ast.Starred)]
+            if st_:
+                i_ = st_[0]; after = len(tg.elts) - i_ - 1
+                if len(st_) > 1: raise Unsupported("two starred targets")
+                if len(v) < len(tg.elts) - 1: raise Raised("ValueError", "not enough values to unpack")
+                for t, x in zip(tg.elts[:i_], v[:i_]): assign(t, x)
+                assign(tg.elts[i_].value, v[i_:len(v) - after])
+                for t, x in zip(tg.elts[i_ + 1:], v[len(v) - after:] if after else []): assign(t, x)
+                return
             if len(v) != len(tg.elts): raise Unsupported("unpacking arity")
             for t, x in zip(tg.elts, v): assign(t, x)
         elif isinstance(tg, ast.Attribute):
